@@ -9,6 +9,8 @@ def run(chk):
         "the parser's side (define sugar vs lambda, formals parsing) and the abstract parameter list (ParameterFormals::iter_to_last/len/as_name are stubbed consistently) are outside",
         "structural counterexamples are confirmed by native evaluator probes before they are reported",
     ]
+    from .c01_parts import eval_probe, EVAL_PROBES
+    chk.run_probes("evaluator", eval_probe, chk.ws.runner("dev"), len(EVAL_PROBES))
     chk.step("eval_expression", spec_eval_expression, chk)
     chk.step("apply_scheme_procedure", spec_apply_scheme, chk, "", ("fresh", "bind", "order"))
     chk.step("native apply", spec_native_apply, chk)
